@@ -237,7 +237,7 @@ def _work(ctx: Ctx, item):
 
 
 def run(ctx: Ctx):
-    n = 100 if ctx.quick else 1000
+    n = 100 if ctx.quick else 8000
     pmap(ctx, _work, [(k, n) for k in aio.CLIENT_KINDS for _ in range(4)])
 
 
